@@ -244,15 +244,21 @@ Definition step_record (sps : list stepreq) (fs gs : list bytes) (lead : nat) (s
             (emit_center g2 (s_out s))
   end.
 
-(* end of stream: every logged (not yet emitted) record, in arrival order: shift its group's window once, run the
-   steppers as directed by THAT record's fields, emit the window centre if there is one *)
-Definition step_drain (sps : list stepreq) (fs : list bytes) (s : sstate) : sstate :=
+(* end of stream: every logged (not yet emitted) record, in arrival order: shift its group's window once, then (fix:
+   b0d126048) up to [lead] more times while the window centre is still empty -- a group shorter than the look-ahead has
+   not reached the centre yet --, run the steppers as directed by THAT record's fields, emit the window centre *)
+Fixpoint shift_to_center (n : nat) (win : list (option wrec)) : list (option wrec) :=
+  match n with
+  | O => win
+  | S n' => match win with Some _ :: _ => win | _ => shift_to_center n' (tl win ++ [None]) end
+  end.
+Definition step_drain (sps : list stepreq) (fs : list bytes) (lead : nat) (s : sstate) : sstate :=
   fst (fold_left
     (fun (acc : sstate * omap (list record)) k =>
        let '(s, pend) := acc in
        match oget k (s_groups s), oget k pend with
        | Some g, Some (dr :: rest) =>
-           let g1 := mksg (tl (sg_win g) ++ [None]) (sg_st g) in
+           let g1 := mksg (shift_to_center lead (tl (sg_win g) ++ [None])) (sg_st g) in
            let g2 := sdispatch sps fs dr g1 in
            (mkst_ (oput k g2 (s_groups s)) (s_log s) (emit_center g2 (s_out s)), oput k rest pend)
        | _, _ => acc
@@ -262,7 +268,7 @@ Definition step_drain (sps : list stepreq) (fs : list bytes) (s : sstate) : ssta
 
 Definition verb_step (sps : list stepreq) (fs gs : list bytes) (rs : list record) : list orec :=
   let lead := fold_left Nat.max (map (fun sp => lead_of (fst sp)) sps) 0%nat in
-  s_out (step_drain sps fs (fold_left (step_record sps fs gs lead) rs (mkst_ [] [] []))).
+  s_out (step_drain sps fs lead (fold_left (step_record sps fs gs lead) rs (mkst_ [] [] []))).
 
 (* the sequence of values a backward-looking stepper writes for one (group, field) cell, given the cell's events
    in order (Some v: the record carries the field; None: it does not) -- what sdispatch/sprocess do to that cell *)
